@@ -527,6 +527,34 @@ func (v *PolicyVerifier) verifyRelativeForRef(ctx context.Context, firstEntry, l
 
 			switch entry := entry.(type) {
 			case *rsl.PropagationEntry:
+				if entry.GetRefName() == PolicyRef && !entry.GetID().Equal(firstEntry.GetID().Bytes()) {
+					// The policy reference was updated via propagation
+					// (for example, with a controller's metadata), the
+					// entries that follow must be verified using it
+					slog.Debug(fmt.Sprintf("Entry '%s' is propagation entry for policy reference, loading policy...", entry.GetID().String()))
+					newPolicy, err := loadStateForEntry(v.repo, entry)
+					if err != nil {
+						return err
+					}
+
+					if currentPolicy != nil {
+						if err := currentPolicy.VerifyNewState(ctx, newPolicy); err != nil {
+							return err
+						}
+						if err := newPolicy.verifyMetadata(ctx); err != nil {
+							return fmt.Errorf("new policy has invalidly signed metadata: %w", err)
+						}
+					}
+
+					currentPolicy = newPolicy
+
+					if v.persistentCacheEnabled {
+						v.persistentCache.InsertPolicyEntryNumber(entry.GetNumber(), entry.GetID())
+					}
+
+					continue
+				}
+
 				slog.Debug(fmt.Sprintf("Entry '%s' is propagation entry, proceeding...", entry.GetID().String()))
 				continue
 
